@@ -6,7 +6,7 @@ CONSTANTS MinDur = 518400
           Miners = {"m1", "m2"}
           OwnerOf <- OwnerOfDef
           WorkerOf <- WorkerOfDef
-          MaxEpochs = 1
+          MaxEpochs = 0
           MaxDeals = 2
           ExportLen = 0
           Rich = FALSE
